@@ -2,7 +2,8 @@
 from .. import normcheck, normflow
 
 THEOREMS = ["C06_single", "C06_single_values", "C06_shares", "C06_conserve", "C06_others_untouched", "C06_error",
-            "C06_counted", "C06_aux_is_epb_electricity", "C06_zero_output_refuted"]
+            "C06_counted", "C06_aux_is_epb_electricity", "C06_zero_output_refuted",
+            "C06_normalized_aux_total", "C06_normalized_aux_conserved"]
 
 from ..check import load_known
 
